@@ -77,18 +77,23 @@ fn decode_plain_block(buf: &Vec<u8>, md: &BlockMetadata) -> (r: Result<Block, SE
 fn decode_filter_block(buf: &Vec<u8>, md: &BlockMetadata) -> (r: Result<Filter, SError>) { unimplemented!() }
 //@ extract sst/src/lib.rs | fn corruption_file_too_small
 //@ external-body
+//@ optional
 //@ end
 //@ extract sst/src/lib.rs | fn corruption_final_block_offset_too_large
 //@ external-body
+//@ optional
 //@ end
 //@ extract sst/src/lib.rs | fn corruption_index_block_runs_past_filter_block
 //@ external-body
+//@ optional
 //@ end
 //@ extract sst/src/lib.rs | fn corruption_filter_block_runs_past_final_block
 //@ external-body
+//@ optional
 //@ end
 //@ extract sst/src/lib.rs | fn corruption_block_metadata_start_gte_limit
 //@ external-body
+//@ optional
 //@ end
 
 impl BlockMetadata {
